@@ -29,7 +29,7 @@ package termincommittee
 //@ pred IsMember(members []interfaces.CommitteeMember, id primitives.MemberId) = exists mi :: 0 <= mi && mi < len(members) && members[mi].Id == id
 //@ pred LeaderOf(members []interfaces.CommitteeMember, v primitives.View) = members[v % len(members)].Id
 //@ pred Signed(tic *TermInCommittee, hdr *protocol.BlockRef, snd *protocol.SenderSignature) = VerifiedMsg(tic.keyManager, hdr.BlockHeight(), hdr.Raw(), snd.MemberId(), snd.Signature())
-//@ pred TicOK(tic *TermInCommittee) = tic.State != nil && tic.messageFactory != nil && len(tic.committeeMembers) >= 4
+//@ pred TicOK(tic *TermInCommittee) = tic.State != nil && tic.messageFactory != nil && len(tic.committeeMembers) >= 4 && tic.storage != nil
 //@   | && SumMW(tic.committeeMembers, len(tic.committeeMembers)) < 2^64
 //@   | && tic.messageFactory.memberId == tic.myMemberId && tic.messageFactory.keyManager == tic.keyManager
 //@   | && IsMember(tic.committeeMembers, tic.myMemberId)
@@ -88,7 +88,7 @@ package termincommittee
 //@   requires [O8.1.from-leader] ppm.content.Sender().MemberId() == LeaderOf(caller.committeeMembers, ppm.content.SignedHeader().View())
 //@   requires [O8.1.current-view] ppm.content.SignedHeader().View() == caller.State.view
 //@   requires [O4.1.block-satisfies-hash] Commits(caller.blockUtils, ppm.content.SignedHeader().BlockHeight(), ppm.block, ppm.content.SignedHeader().BlockHash())
-//@   requires [O4.4.block-has-this-height] ppm.block != nil && ppm.block.Height() == ppm.content.SignedHeader().BlockHeight()
+//@   requires [O4.4.block-has-this-height] ppm.block != nil ==> ppm.block.Height() == ppm.content.SignedHeader().BlockHeight()
 //@   modifies ghost:ppStored, ghost:ppHash
 //@   ensures ppStored[ppm.content.SignedHeader().View()]
 //@   ensures old(ppStored[ppm.content.SignedHeader().View()]) ==> ppHash[ppm.content.SignedHeader().View()] == old(ppHash[ppm.content.SignedHeader().View()])
@@ -126,6 +126,7 @@ package termincommittee
 
 //@ iface interfaces.Storage.GetPreprepareMessage
 //@   ensures result1 == ppStored[view]
+//@   ensures result1 ==> result0 == PPAt(self, blockHeight, view)
 //@   ensures result1 ==> ProposalOK(caller, result0)
 //@   ensures result1 ==> result0 != nil && result0.content != nil && result0.content.SignedHeader().View() == view
 //@     | && result0.content.SignedHeader().BlockHeight() == blockHeight && content(result0.content.SignedHeader().BlockHash()) == ppHash[view]
@@ -216,7 +217,8 @@ package termincommittee
 //@   requires [term-not-yet-committed] ncommitted == 0
 //@   ensures [O9.lock-kept] LockKept(tic, old(tic.preparedLocally), old(tic.preparedLocally.isPreparedLocally), old(tic.preparedLocally.latestView))
 //@   inv GhostInv(tic)
-//@   props C03 C04 C10 C13 C09 C15
+//@   props C03 C04 C10 C13 C09 C15 C12
+//@   safety iface
 //@   requires TicOK(tic)
 //@   requires blockHeight == tic.State.height
 //@   modifies @TIC
@@ -247,11 +249,12 @@ package termincommittee
 //@   | && ppm.content.Sender().MemberId() == LeaderOf(tic.committeeMembers, ppm.content.SignedHeader().View())
 //@   | && ppm.content.SignedHeader().BlockHeight() == tic.State.height
 //@   | && Commits(tic.blockUtils, ppm.content.SignedHeader().BlockHeight(), ppm.block, ppm.content.SignedHeader().BlockHash())
-//@   | && ppm.block != nil && ppm.block.Height() == ppm.content.SignedHeader().BlockHeight()
+//@   | && (ppm.block != nil ==> ppm.block.Height() == ppm.content.SignedHeader().BlockHeight())
 
-// A-SPI: a block the consumer accepts / produces for height h satisfies the hash and has height h
+// A-SPI: a block the consumer accepts / produces for height h satisfies the hash and, when present, has height h.
+// That an accepted block is present at all is NOT assumed (C12: a proposal may arrive without its block).
 //@ iface interfaces.BlockUtils.ValidateBlockProposal
-//@   ensures result == nil ==> Commits(self, blockHeight, block, blockHash) && block != nil && block.Height() == blockHeight
+//@   ensures result == nil ==> Commits(self, blockHeight, block, blockHash) && (block != nil ==> block.Height() == blockHeight)
 
 //@ iface interfaces.BlockUtils.RequestNewBlockProposal
 //@   ensures Commits(self, blockHeight, result0, result1) && result0 != nil && result0.Height() == blockHeight
